@@ -340,6 +340,55 @@ func TestC19(t *testing.T) {
 			_ = r
 		}
 	}
+	// DynamicBytesUnmarshalText (fresh and reused destinations) and BytesString
+	for ln := 0; ln <= 40; ln++ {
+		for r := 0; r < 3; r++ {
+			b := make([]byte, ln)
+			for i := range b {
+				b[i] = hexAlphabet[rng.Intn(len(hexAlphabet))]
+			}
+			if ln > 0 && rng.Intn(6) == 0 {
+				b[rng.Intn(ln)] = "gGxX -_"[rng.Intn(7)]
+			}
+			for _, pre := range []string{"", "0x", "0X"} {
+				text := append([]byte(pre), b...)
+				for _, preset := range []int{-1, 0, 3, 64} {
+					ps := preset
+					out.emit("dynu", "dynu", []string{hexBytes(text)}, guard(func() string {
+						var dst []byte
+						if ps >= 0 {
+							dst = make([]byte, ps)
+							for i := range dst {
+								dst[i] = 0xa5
+							}
+						}
+						if err := conv.DynamicBytesUnmarshalText(&dst, text); err != nil {
+							return "ERR"
+						}
+						return "OK " + hexBytes(dst)
+					}))
+				}
+			}
+		}
+	}
+	for k := 0; k < 60; k++ {
+		b := make([]byte, rng.Intn(40))
+		rng.Read(b)
+		out.emit("bstr", "bstr", []string{hexBytes(b)}, hexBytes([]byte(conv.BytesString(b))))
+		var rv view.RootView
+		rng.Read(rv[:])
+		txt, _ := rv.MarshalText()
+		out.emit("hexm", "hexm", []string{hexBytes(rv[:])}, hexBytes(txt))
+		var rv2 view.RootView
+		rng.Read(rv2[:])
+		out.emit("hexu", "hexu", []string{"20", hexBytes(txt)}, guard(func() string {
+			if err := rv2.UnmarshalText(txt); err != nil {
+				return "ERR"
+			}
+			return "OK " + hexBytes(rv2[:])
+		}))
+		out.emit("bstr", "bstr", []string{hexBytes(rv[:])}, hexBytes([]byte(rv.String())))
+	}
 	// the typed wrappers: Root / RootView / SmallByteVecView
 	for k := 0; k < 60; k++ {
 		var r tree.Root
